@@ -89,6 +89,9 @@ def xml_tree(draw, max_nodes=12):
                 x["xml:" + draw(st.sampled_from(["lang", "space"]))] = draw(st.sampled_from(["en", "preserve"]))
             if x:
                 sp["x"] = x
+        if f & 128 and f & 3 == 3:
+            # node ids are no part of the XML and need not differ within a tree (explicit ids, trees loaded from JSON)
+            sp["i"] = draw(st.sampled_from(["same-id", "same-id", "other-id"]))
         if i == 0:
             root = sp
         else:
